@@ -9,14 +9,19 @@ RULES = {
 }
 
 def run(rep, tier, seed):
-    pr = vlib.coq_check('C13'); rep.add_proof(pr)
+    pr = vlib.coq_check('C13')
+    pr2 = vlib.coq_check('C13b')      # the collector: ldb_remove_obsolete_files unlinks exactly the names nobody needs (Gc.v)
+    pr['theorems'] += pr2['theorems']; pr['ok'] = pr['ok'] and pr2['ok']; pr['closed_count'] = pr.get('closed_count', 0) + pr2.get('closed_count', 0)
+    pr['axioms'] = sorted(set(pr['axioms']) | set(pr2['axioms'])); pr['log'] += pr2['log']; pr['file'] += ' + coq/theories/Properties_C13b.v'
+    if pr2.get('coqchk'): pr['coqchk_C13b'] = pr2['coqchk']
+    rep.add_proof(pr)
     if not pr['ok']:
         rep.violation({'kind': 'proof-broken', 'log': pr['log'][-3000:], 'forbidden': pr['forbidden']}, suffix='no-failing-input-found')
     nh, nops = (32, 90) if tier == 'quick' else (1200, 300)
     import histgen
     k2check.run_k2(rep, 'C13', tier, seed, 'c13', nh, nops, extra_histories=histgen.corpus_histories())
     fault_segment(rep, tier, seed)
-    rep.cov['rule'] = RULES['C13'] + '; plus: every MANIFEST append/fsync and directory fsync of 2 (quick) histories fails once, after which a fault-free reopen must succeed (obsolete-file removal must stop after a failed version install); crash images with orphan tables of a multi-output compaction are recovered on the PTHREAD build with delayed unlinks and must behave like the single-threaded recovery (no orphan removal may hit a file the background thread has just created); on the pthread build a copy of the directory at every log unlink of a continuously writing client must recover every write acknowledged before the unlink' + '; distinct_nontrivial = histories with >= 1 flush and >= 1 non-trivial compaction'
+    rep.cov['rule'] = RULES['C13'] + '; every run of the obsolete-file collector is observed (live set, log/prev-log/manifest numbers, directory listing, unlinked names) and the unlinked set must equal the one computed by the collector model Gc.v (theorems Properties_C13b.v); plus: every MANIFEST append/fsync and directory fsync of 2 (quick) histories fails once, after which a fault-free reopen must succeed (obsolete-file removal must stop after a failed version install); crash images with orphan tables of a multi-output compaction are recovered on the PTHREAD build with delayed unlinks and must behave like the single-threaded recovery (no orphan removal may hit a file the background thread has just created); on the pthread build a copy of the directory at every log unlink of a continuously writing client must recover every write acknowledged before the unlink' + '; distinct_nontrivial = histories with >= 1 flush and >= 1 non-trivial compaction'
 
 def fault_segment(rep, tier, seed):
     import k3check
